@@ -182,6 +182,13 @@ func AddDecoys(r *rand.Rand, parts []cfg.Config) {
 		if src.Meta.ContainerType != nil && dst.Meta.ContainerType == nil && r.Intn(2) == 0 {
 			dst.Meta.ContainerType = cfg.P("DecoyType")
 		}
+		if src.Meta.ContainerConstructor != nil && dst.Meta.ContainerConstructor == nil && r.Intn(2) == 0 {
+			dst.Meta.ContainerConstructor = cfg.P("DecoyConstructor")
+		}
+		if src.Version != nil && dst.Version == nil && r.Intn(2) == 0 {
+			v := cfg.Str("0.0.1")
+			dst.Version = &v
+		}
 		if src.Meta.DefaultMustGetter != nil && dst.Meta.DefaultMustGetter == nil && r.Intn(2) == 0 {
 			dst.Meta.DefaultMustGetter = cfg.P(!*src.Meta.DefaultMustGetter)
 		}
